@@ -952,6 +952,11 @@ pub struct Profile {
     pub flush_pct: u64,
     pub commit_pct: u64,
     pub dup_pct: u64,
+    /// percent chance, per delivered command, of a *directed* duplicate: the command itself again
+    /// right away (duplicate of the in-flight head — a single, a merge, the init), one of its
+    /// parents again (duplicate of a covered / flushed / committed tip), or the command again after
+    /// the next command (a merge re-delivered after a child was added on top of it)
+    pub dup_near_pct: u64,
     pub noncausal_pct: u64,
     pub action_pct: u64,
     pub action_fail_pct: u64,
@@ -975,6 +980,7 @@ impl Default for Profile {
             flush_pct: 10,
             commit_pct: 15,
             dup_pct: 10,
+            dup_near_pct: 20,
             noncausal_pct: 5,
             action_pct: 0,
             action_fail_pct: 40,
@@ -1004,6 +1010,14 @@ pub fn gen_action_specs(rng: &mut Rng, p: &Profile) -> Vec<(Priority, Vec<Op>)> 
         specs.push((Priority::Basic(0), vec![Op::Set(0, 1), Op::Append, Op::Emit(5)]));
     }
     specs
+}
+
+fn kind_of(c: &KCmd) -> &'static str {
+    match c.parent {
+        Prior::None => "init",
+        Prior::Single(_) => "single",
+        Prior::Merge(..) => "merge",
+    }
 }
 
 /// random topological order of `0..n` w.r.t. `dag`
@@ -1094,8 +1108,37 @@ pub fn run_history(w: &mut World, rec: &mut Recorder, rng: &mut Rng, p: &Profile
         i += 1;
     }
     let mut stream: Vec<KCmd> = vec![];
+    let mut again_later: Vec<KCmd> = vec![];
     for &k in &order {
         stream.push(cmds[k].clone());
+        // duplicates scheduled one command ago: delivered after a (possible) child
+        for c in again_later.drain(..) {
+            rec.count(&format!("dup:after-next:{}", kind_of(&c)));
+            stream.push(c);
+        }
+        // merges are always candidates, other commands with the profile's probability
+        let is_merge = dag.nodes[k].parents.len() == 2;
+        if rng.chance(p.dup_near_pct, 100) || (is_merge && p.dup_near_pct > 0 && rng.chance(1, 2)) {
+            match rng.below(4) {
+                0 | 1 => {
+                    rec.count(&format!("dup:immediately:{}", kind_of(&cmds[k])));
+                    stream.push(cmds[k].clone());
+                    if rng.chance(1, 3) {
+                        again_later.push(cmds[k].clone());
+                    }
+                }
+                2 => {
+                    rec.count(&format!("dup:after-next:scheduled:{}", kind_of(&cmds[k])));
+                    again_later.push(cmds[k].clone());
+                }
+                _ => {
+                    for &pi in &dag.nodes[k].parents {
+                        rec.count(&format!("dup:parent:{}", kind_of(&cmds[pi])));
+                        stream.push(cmds[pi].clone());
+                    }
+                }
+            }
+        }
         if rng.chance(p.dup_pct, 100) {
             let j = rng.below(stream.len() as u64) as usize;
             stream.push(stream[j].clone());
